@@ -145,7 +145,13 @@ func (pq *KeyGroupPriorityQueue) Pop() ([]byte, bool) {
 
 func (pq *KeyGroupPriorityQueue) Push(data []byte) {
 	pq.loadFromDB()
-	pq.cache.Push(data)
+
+	// The cache must always hold the smallest items of the db. While the db has
+	// items that aren't cached, an item sorting after everything in the cache
+	// may also sort after some of those, so it only goes to the db.
+	if pq.allDataInCache || !pq.sortsAfterCache(data) {
+		pq.cache.Push(data)
+	}
 
 	// If pushing the item exceeded the cache capacity, evict items until we're back under the limit
 	for pq.cache.IsFull() && !pq.cache.IsEmpty() {
@@ -154,6 +160,16 @@ func (pq *KeyGroupPriorityQueue) Push(data []byte) {
 	}
 
 	pq.db.Put(data, nil) // write-through cache to db
+}
+
+// sortsAfterCache reports whether data is greater than every cached item.
+func (pq *KeyGroupPriorityQueue) sortsAfterCache(data []byte) bool {
+	last, ok := pq.cache.PopLast()
+	if !ok {
+		return false
+	}
+	pq.cache.Push(last)
+	return bytes.Compare(data, last) > 0
 }
 
 func (pq *KeyGroupPriorityQueue) AssignIndex(i int) {
